@@ -56,6 +56,7 @@ REQUIRED = ["trees", "length_checked", "branch_features_checked", "path_features
             "frontend_tree_checked", "frontend_population_checked", "population_padding_checked",
             "frontend_requeried", "feature_queries_in_random_order",
             "populations_of_trees_with_one_source", "size_sweep_cases",
+            "branch_tree_instances_measured",
             "single_node_trees", "root_is_tip_or_one_child", "tap_sholl_get", "tap_features_get"]
 FLOOR = {"quick": 500, "thorough": 40000}
 SHARDS = {"quick": 8, "thorough": 16}
@@ -327,6 +328,12 @@ def exec_tree(ctx, case):
         # a tree the library derived (sorted / re-rooted / grown by a merged node) from a used one
         tree, spec = G.derive(tree, spec, int(case["seed"]))
         case = dict(case, _derived=True)  # (a re-rooted lattice no longer has exact distances)
+    elif case["seed"] % 5 == 3 and len(spec["pid"]) >= 4:
+        # a BranchTree instance is a tree: its morphometrics follow from its own node table
+        bt, spec_bt = G.as_branch_tree(tree)
+        if bt is not None:
+            tree, spec = bt, spec_bt
+            ctx.count("branch_tree_instances_measured")
     n = len(spec["pid"])
     xyz = np.stack([spec["x"], spec["y"], spec["z"]], axis=1)
     ref = Ref(spec["pid"], xyz)
